@@ -13,6 +13,7 @@ import (
 	"math/rand"
 	"strings"
 	"sync"
+	"time"
 
 	logging "github.com/ipfs/go-log/v2"
 
@@ -37,6 +38,57 @@ type gen struct {
 	uniq   int
 	used   map[string]bool // contents used in the current case
 	unique bool            // trigger regions: all transaction contents of a case are pairwise different
+	binary bool            // this case mixes in binary transaction contents (see binTx)
+}
+
+// invalid UTF-8 material: lone continuation bytes, truncated sequences, an encoded surrogate, 0xFE/0xFF
+var badUTF8 = []byte{0xC3, 0x28, 0xA0, 0xA1, 0xE2, 0x28, 0xA1, 0xF0, 0x28, 0x8C, 0xBC, 0xED, 0xA0, 0x80, 0xFE, 0xFF, 0x80}
+
+// binTx draws a transaction that is not text: zero bytes, 0xFF runs, random bytes, invalid UTF-8, JSON
+// metacharacters and the Unicode replacement character itself, or (where contents may repeat) no bytes at all.
+// The carry-over queue of the sequencer is persisted: whatever encoding it uses must give these back unchanged.
+func (g *gen) binTx(maxSize int) string {
+	rng := g.rng
+	for try := 0; ; try++ {
+		n := 1 + rng.Intn(maxSize)
+		if try > 8 {
+			n += try / 8
+		}
+		b := make([]byte, n)
+		switch rng.Intn(6) {
+		case 0: // zero bytes
+		case 1:
+			for i := range b {
+				b[i] = 0xFF
+			}
+		case 2:
+			rng.Read(b)
+		case 3:
+			off := rng.Intn(len(badUTF8))
+			for i := range b {
+				b[i] = badUTF8[(off+i)%len(badUTF8)]
+			}
+		case 4:
+			special := []byte{0x00, 0xFF, '"', '\\', '\n', 0xEF, 0xBF, 0xBD, 'a', 'b', 0x7f, 0x1b}
+			for i := range b {
+				b[i] = special[rng.Intn(len(special))]
+			}
+		default:
+			if !g.unique {
+				b = b[:0] // a zero-length blob
+			} else {
+				rng.Read(b)
+			}
+		}
+		if g.unique && try > 0 {
+			rng.Read(b[len(b)/2:])
+		}
+		t := string(b)
+		if !g.unique || !g.used[t] {
+			g.used[t] = true
+			return t
+		}
+	}
 }
 
 const txAlphabet = "abcdefghijklmnopqrstuvwxyzABCDEFGHIJKLMNOPQRSTUVWXYZ0123456789"
@@ -45,6 +97,9 @@ const txAlphabet = "abcdefghijklmnopqrstuvwxyzABCDEFGHIJKLMNOPQRSTUVWXYZ01234567
 // often (4-letter alphabet); in the trigger regions contents are pairwise different so that the
 // shape of a deviation can be read off without ambiguity.
 func (g *gen) tx(maxSize int) string {
+	if g.binary && g.rng.Intn(3) == 0 {
+		return g.binTx(maxSize)
+	}
 	n := 1 + g.rng.Intn(maxSize)
 	if g.rng.Intn(6) == 0 {
 		n = 1 + g.rng.Intn(3)
@@ -135,6 +190,7 @@ func (g *gen) genOnce(id int, region string) Case {
 	rng := g.rng
 	g.used = map[string]bool{}
 	g.unique = region != "clean"
+	g.binary = rng.Intn(2) == 0
 	c := Case{ID: id, Region: region, Start: []uint64{0, 1, 1, 3}[rng.Intn(4)], Drift: []uint64{0, 0, 1, 2, 5}[rng.Intn(5)]}
 	first := c.Start
 	if first == 0 {
@@ -152,7 +208,7 @@ func (g *gen) genOnce(id int, region string) Case {
 		p := rng.Intn(100)
 		switch {
 		case p < 18:
-			c.Steps = append(c.Steps, Step{Kind: "restart"})
+			c.Steps = append(c.Steps, Step{Kind: "restart", Cursor: []string{"", "", "nil", "stale"}[rng.Intn(4)]})
 		case p < 38:
 			if s.pb != nil {
 				// partial regions: the DA is static once the first push-back has happened (the
@@ -216,6 +272,9 @@ func (g *gen) genOnce(id int, region string) Case {
 				if rng.Intn(6) == 0 {
 					st.Limit = wb + 100000
 				}
+				if rng.Intn(12) == 0 {
+					st.Limit = 0 // no size requested: the sequencer's default applies
+				}
 			case "partial-fit":
 				// never below the largest transaction: everything fits some batch
 				m := maxTx(s.w) + 1
@@ -234,6 +293,137 @@ func (g *gen) genOnce(id int, region string) Case {
 				}
 			}
 			s.call(len(c.Steps), st.Limit)
+			c.Steps = append(c.Steps, st)
+		}
+	}
+	return c
+}
+
+// genFree generates a case without any regard to the window model: limits anywhere (below single transactions,
+// exactly a transaction's size, above everything, none = default), retrieval errors and DA growth at any time
+// (also after transactions were carried over), restarts with the caller's LastBatchData kept, lost or stale,
+// binary transaction contents, now and then a height with more ids than one fetch chunk or one large
+// transaction. Such a case is judged by the stream oracle alone.
+func (g *gen) genFree(id int) Case { return g.genFreeOpt(id, "free") }
+
+// genCrash is a free case with pairwise different transactions in which the datastore dies inside one call
+// (after 0, 1 or 2 more durable writes); the sequencer is restarted right after it.
+func (g *gen) genCrash(id int) Case {
+	for {
+		c := g.genFreeOpt(id, "crash-inside")
+		var calls []int
+		for i, st := range c.Steps {
+			if st.Kind == "call" {
+				calls = append(calls, i)
+			}
+		}
+		if len(calls) < 2 {
+			continue
+		}
+		i := calls[g.rng.Intn(len(calls))]
+		c.Steps[i].CrashAfter = 1 + g.rng.Intn(3)
+		rest := append([]Step{{Kind: "restart", Cursor: []string{"", "nil", "stale"}[g.rng.Intn(3)]}}, c.Steps[i+1:]...)
+		c.Steps = append(c.Steps[:i+1:i+1], rest...)
+		return c
+	}
+}
+
+func (g *gen) genFreeOpt(id int, region string) Case {
+	rng := g.rng
+	g.used = map[string]bool{}
+	g.unique = region == "crash-inside"
+	g.binary = rng.Intn(4) != 0
+	c := Case{ID: id, Region: region, Start: []uint64{0, 1, 1, 3}[rng.Intn(4)], Drift: []uint64{0, 0, 1, 2, 5}[rng.Intn(5)]}
+	first := c.Start
+	if first == 0 {
+		first = 1
+	}
+	maxSize := []int{60, 60, 12, 4}[rng.Intn(4)]
+	flavour := rng.Intn(12) // 0: a height with 101-230 txs; 1: one transaction of 256 KiB
+	if g.unique {
+		flavour = -1
+	}
+	special := func(ht HeightTxs) HeightTxs {
+		switch flavour {
+		case 0:
+			n := []int{101, 150, 200, 201, 230}[rng.Intn(5)]
+			for len(ht.Txs) < n {
+				ht.Txs = append(ht.Txs, g.tx(4))
+			}
+		case 1:
+			b := make([]byte, 256<<10)
+			rng.Read(b)
+			ht.Txs = append(ht.Txs, "")
+			pos := rng.Intn(len(ht.Txs))
+			copy(ht.Txs[pos+1:], ht.Txs[pos:])
+			ht.Txs[pos] = string(b)
+		}
+		flavour = -1
+		return ht
+	}
+	w := newDAWorld()
+	nInit := 1 + rng.Intn(8)
+	at := rng.Intn(nInit + 2) // which height gets the special content (may be a grown one, or none)
+	nth := 0
+	height := func(h uint64) HeightTxs {
+		ht := g.height(h, 6, maxSize)
+		if nth == at {
+			ht = special(ht)
+		}
+		nth++
+		return ht
+	}
+	for i := 0; i < nInit; i++ {
+		c.Initial = append(c.Initial, height(first+uint64(i)))
+	}
+	w.grow(c.Initial)
+	nSteps := 4 + rng.Intn(14)
+	for len(c.Steps) < nSteps {
+		switch p := rng.Intn(100); {
+		case p < 20:
+			c.Steps = append(c.Steps, Step{Kind: "restart", Cursor: []string{"", "", "nil", "stale"}[rng.Intn(4)]})
+		case p < 40:
+			lo := w.head + 1 + uint64(rng.Intn(3))/2 // sometimes an empty height in between
+			var hts []HeightTxs
+			for i, n := 0, 1+rng.Intn(3); i < n; i++ {
+				hts = append(hts, height(lo+uint64(i)))
+			}
+			c.Steps = append(c.Steps, Step{Kind: "grow", Grow: hts})
+			w.grow(hts)
+		default:
+			st := Step{Kind: "call"}
+			if rng.Intn(100) < 30 {
+				for i, n := 0, 1+rng.Intn(2); i < n; i++ {
+					h := first + uint64(rng.Intn(int(w.head-first)+2)) // up to one above the head
+					e := ErrAt{H: h, Kind: "listerr"}
+					if k := len(w.content[h]); k > 0 && rng.Intn(2) == 0 {
+						e.Kind, e.Chunk = "chunkerr", rng.Intn((k+99)/100)
+					}
+					st.Errs = append(st.Errs, e)
+				}
+			}
+			var total uint64
+			for _, ts := range w.content {
+				for _, t := range ts {
+					total += uint64(len(t))
+				}
+			}
+			mx := maxTx(w)
+			if mx < 2 {
+				mx = 2
+			}
+			switch rng.Intn(10) {
+			case 0:
+				st.Limit = 0 // default
+			case 1:
+				st.Limit = 1 + uint64(rng.Intn(int(mx))) // may be below a single transaction
+			case 2:
+				st.Limit = mx // exactly the largest transaction
+			case 3:
+				st.Limit = total + 1 + uint64(rng.Intn(100))
+			default:
+				st.Limit = mx + 1 + uint64(rng.Intn(int(total/3+2)))
+			}
 			c.Steps = append(c.Steps, st)
 		}
 	}
@@ -281,7 +471,11 @@ type Verdict struct {
 	nGrow    int
 	nRelCall int
 	partial  int
-	kinds    strings.Builder
+	// CrashKind: what was seen after the datastore died inside a call (crash experiment).
+	CrashKind string `json:"after_crash_inside_call,omitempty"`
+	zeroRel   int    // zero-length blobs released
+	binRel    int    // non-text transactions released in order
+	kinds     strings.Builder
 }
 
 func hex2(ts [][]byte) []string {
@@ -332,16 +526,41 @@ func Judge(c Case) *Verdict {
 	if err := start(); err != nil {
 		return fail("startup", err.Error())
 	}
-	var last [][]byte
+	var last, prevLast [][]byte // LastBatchData of the latest response / of the one before
+	strictOnly := c.Region == "free" || c.Region == "crash-inside"
+	carry := false // the latest batch ended inside a height: something is carried over
 	pS, pT := 0, 0 // released so far according to the strict / the skip-tolerant expectation
 	strictAlive, tolAlive := true, true
 	strictDeath := ""
-	afterRestart := false
+	afterRestart := "" // "" | kept | nil | stale: a restart happened and no batch was released since
 
 	// doCall performs one GetNextBatch and judges the batch. It returns a final verdict or nil.
+	// crash experiment: a call during which the datastore died. Its response never reached anybody; from then on
+	// the released transactions are only collected and compared with the DA contents at the end (evalCrash).
+	armCrash := 0
+	crashed := false
+	crashAt := 0
+	var crashB, crashR []string
 	doCall := func(stepIdx int, limit uint64, phase string) *Verdict {
+		if armCrash > 0 {
+			ds.CrashAfter(armCrash - 1)
+			phase = fmt.Sprintf("datastore dies after %d more write(s)", armCrash-1)
+		}
 		resp, err := seq.GetNextBatch(ctx, coresequencer.GetNextBatchRequest{Id: []byte(chainID), LastBatchData: last, MaxBytes: limit})
 		rec := CallRec{Step: stepIdx, Limit: limit, Head: s.w.head, Phase: phase}
+		if armCrash > 0 {
+			armCrash = 0
+			if ds.Crashed() {
+				if resp != nil && resp.Batch != nil {
+					rec.Released = hex2(resp.Batch.Transactions)
+				}
+				rec.Phase += ": died inside the call, response discarded"
+				v.Calls = append(v.Calls, rec)
+				crashed, crashAt, crashB = true, pS, nonEmpty(rec.Released)
+				return nil
+			}
+			ds.CrashAfter(1 << 40) // the call made fewer writes: it completed, disarm
+		}
 		var B []string
 		if err != nil {
 			rec.Err = err.Error()
@@ -349,27 +568,47 @@ func Judge(c Case) *Verdict {
 			if resp.Batch != nil {
 				B = hex2(resp.Batch.Transactions)
 			}
-			last = resp.BatchData
+			prevLast, last = last, resp.BatchData
 		}
 		for _, t := range B {
 			rec.Bytes += uint64(len(t))
 		}
 		rec.Released = B
 		v.Calls = append(v.Calls, rec)
+		// zero-length blobs are not judged: a sequencer may release them or leave them out (counted)
+		if n := len(B); n > 0 {
+			B = nonEmpty(B)
+			v.zeroRel += n - len(B)
+		}
 		if len(B) == 0 {
 			return nil
 		}
+		if crashed {
+			if limit != 0 && rec.Bytes > limit {
+				return fail("size-bound", fmt.Sprintf("step %d: batch of %d bytes released for a requested size of %d: %s", stepIdx, rec.Bytes, limit, shortList(B)))
+			}
+			crashR = append(crashR, B...)
+			return nil
+		}
 		v.nRelCall++
-		v.hits["size-bound"]++
-		if rec.Bytes > limit {
-			return fail("size-bound", fmt.Sprintf("step %d: batch of %d bytes released for a requested size of %d: %s", stepIdx, rec.Bytes, limit, shortList(B)))
+		if limit == 0 {
+			// no size requested: the bound is the sequencer's own default, nothing to compare with
+			v.hits["default-limit-call"]++
+		} else {
+			v.hits["size-bound"]++
+			if rec.Bytes > limit {
+				return fail("size-bound", fmt.Sprintf("step %d: batch of %d bytes released for a requested size of %d: %s", stepIdx, rec.Bytes, limit, shortList(B)))
+			}
 		}
-		if afterRestart {
+		if afterRestart != "" {
 			v.hits["restart-continuity"]++
-			afterRestart = false
+			if afterRestart != "kept" {
+				v.hits["restart-continuity-cursor-"+afterRestart]++
+			}
+			afterRestart = ""
 		}
-		En := s.w.stream(c.Start, nil)
-		Et := s.w.stream(c.Start, s.skipped)
+		En := nonEmptyAt(s.w.stream(c.Start, nil))
+		Et := nonEmptyAt(s.w.stream(c.Start, s.skipped))
 		match := func(E []TxAt, p int) bool {
 			if p+len(B) > len(E) {
 				return false
@@ -384,14 +623,23 @@ func Judge(c Case) *Verdict {
 		if strictAlive {
 			if match(En, pS) {
 				v.hits["da-order"] += int64(len(B))
-				if pS+len(B) < len(En) && En[pS+len(B)].H == En[pS+len(B)-1].H {
+				carry = pS+len(B) < len(En) && En[pS+len(B)].H == En[pS+len(B)-1].H
+				if carry {
 					v.partial++ // the batch ends inside a height
+				}
+				for _, t := range B {
+					if !printable(t) {
+						v.binRel++
+					}
 				}
 				pS += len(B)
 			} else {
 				strictAlive = false
-				id, d := classify(B, En, pS, limit)
+				id, d := classify(B, En, pS, effLimit(limit))
 				strictDeath = fmt.Sprintf("step %d (limit %d): %s", stepIdx, limit, d)
+				if strictOnly {
+					return fail("da-order", strictDeath)
+				}
 				if s.pb != nil && s.pb.Call < stepIdx {
 					// partial regions: judged by the shape of the first deviation
 					v.PushBack = s.pb
@@ -419,11 +667,26 @@ func Judge(c Case) *Verdict {
 	for i, st := range c.Steps {
 		switch st.Kind {
 		case "restart":
-			v.kinds.WriteString("R")
 			v.nRestart++
-			afterRestart = true
+			if carry {
+				v.hits["restart-with-carry-over"]++
+			}
 			if err := start(); err != nil {
 				return fail("restart", "a new sequencer over the same datastore does not start: "+err.Error())
+			}
+			// what the caller passes back after the restart: the cursor it kept, nothing, or an older one
+			switch st.Cursor {
+			case "nil":
+				v.kinds.WriteString("N")
+				last, prevLast = nil, nil
+				afterRestart = "nil"
+			case "stale":
+				v.kinds.WriteString("S")
+				last = prevLast
+				afterRestart = "stale"
+			default:
+				v.kinds.WriteString("R")
+				afterRestart = "kept"
 			}
 		case "grow":
 			v.kinds.WriteString("g")
@@ -432,7 +695,13 @@ func Judge(c Case) *Verdict {
 			s.grow(st.Grow)
 		case "call":
 			for _, e := range st.Errs {
-				da.ScriptRetrieve(e.H, world.RetrieveOutcome{Kind: e.Kind})
+				// error identities vary with the height; a chunk fetch may also fail with a not-found /
+				// from-the-future identity (a listed id that is not retrievable yet)
+				variant := (int(e.H) + i) % world.RetrieveErrVariants
+				if e.Kind == "chunkerr" {
+					variant = (int(e.H) + i + e.Chunk) % world.RetrieveErrVariantsAll
+				}
+				da.ScriptRetrieve(e.H, world.RetrieveOutcome{Kind: e.Kind, Chunk: e.Chunk, ErrVariant: variant})
 				v.nErr++
 			}
 			s.arm(st.Errs)
@@ -441,11 +710,14 @@ func Judge(c Case) *Verdict {
 			switch {
 			case len(st.Errs) > 0:
 				v.kinds.WriteString("e")
+			case st.Limit == 0:
+				v.kinds.WriteString("0")
 			case st.Limit > wb:
 				v.kinds.WriteString("c")
 			default:
 				v.kinds.WriteString("p")
 			}
+			armCrash = st.CrashAfter
 			if r := doCall(i, st.Limit, ""); r != nil {
 				return r
 			}
@@ -459,7 +731,8 @@ func Judge(c Case) *Verdict {
 			big += uint64(len(t))
 		}
 	}
-	En := s.w.stream(c.Start, nil)
+	En := nonEmptyAt(s.w.stream(c.Start, nil))
+	da.ClearRetrieveScript() // "no faults" from here on
 	K := int(s.w.head-minU(s.w.head, c.Start)) + 1 + len(En) + 5
 	for k := 0; k < K; k++ {
 		s.call(len(c.Steps)+k, big)
@@ -470,16 +743,47 @@ func Judge(c Case) *Verdict {
 			break
 		}
 	}
+	if strictAlive && pS < len(En) && !crashed {
+		// a sequencer that paces its DA requests by the clock answers nothing to calls a few microseconds apart:
+		// give it real time before calling it incomplete
+		for k := 0; k < 40 && pS < len(En) && strictAlive; k++ {
+			time.Sleep(25 * time.Millisecond)
+			if r := doCall(len(c.Steps)+K+k, big, "drain-paced"); r != nil {
+				return r
+			}
+		}
+		if strictAlive && pS == len(En) {
+			v.hits["completed-only-with-pauses"]++
+		}
+	}
+	if crashed {
+		v.CrashKind, v.Detail = evalCrash(crashB, crashR, En[crashAt:])
+		if v.CrashKind == "violation:loss" {
+			// as above: real time for a sequencer that paces itself by the clock, before anything is called lost
+			for k := 0; k < 40; k++ {
+				time.Sleep(25 * time.Millisecond)
+				if r := doCall(len(c.Steps)+K+k, big, "drain-paced"); r != nil {
+					return r
+				}
+			}
+			v.CrashKind, v.Detail = evalCrash(crashB, crashR, En[crashAt:])
+		}
+		if strings.HasPrefix(v.CrashKind, "violation:") {
+			return fail("crash-inside-"+strings.TrimPrefix(v.CrashKind, "violation:"), v.Detail)
+		}
+		v.hits["crash-inside-call"]++
+		return v
+	}
 	v.hits["completeness"]++
 	v.PushBack = s.pb
 	for h := range s.skippedHit {
 		v.Skipped = append(v.Skipped, h)
 	}
-	Et := s.w.stream(c.Start, s.skipped)
+	Et := nonEmptyAt(s.w.stream(c.Start, s.skipped))
 	switch {
 	case strictAlive && pS == len(En):
 		return v
-	case s.trigSkip() && tolAlive && pT == len(Et):
+	case !strictOnly && s.trigSkip() && tolAlive && pT == len(Et):
 		missing := 0
 		for h := range s.skippedHit {
 			missing += len(s.w.content[h])
@@ -495,6 +799,99 @@ func Judge(c Case) *Verdict {
 		return fail("completeness", fmt.Sprintf("%d of %d tx on DA were never released after %d drain calls without faults (limit %d); next missing: %s at height %d pos %d", len(En)-pS, len(En), K, big, short(En[pS].Tx), En[pS].H, En[pS].Pos))
 	}
 	return fail("da-order", strictDeath)
+}
+
+// evalCrash judges what was released after a call during which the datastore died (B = the response of that call,
+// which nobody received; R = everything released afterwards, i.e. after the restart and up to the end of the
+// fault-free drain; E = the DA contents from the position before the call, in order, pairwise different).
+// The property only speaks of restarts between calls, so a repeated or a never-delivered transaction of that one
+// call is an observation. It is a violation when the sequence is damaged for good: a transaction that is on DA
+// shows up neither in B nor in R (lost although clean calls followed), R contains something that is not on DA, or
+// R is out of DA order in a way that is no repetition (it jumps forward over transactions and comes back to them).
+func evalCrash(B, R []string, E []TxAt) (kind, detail string) {
+	idx := map[string]int{}
+	for i, e := range E {
+		idx[e.Tx] = i
+	}
+	inB := map[int]bool{}
+	for _, t := range B {
+		if i, ok := idx[t]; ok {
+			inB[i] = true
+		}
+	}
+	pos, rewinds, skippedB := 0, 0, 0
+	seen := map[int]bool{}
+	for k, t := range R {
+		i, ok := idx[t]
+		if !ok {
+			return "violation:foreign", fmt.Sprintf("after the crash, transaction #%d released (%s) is not among the DA contents still to be released", k, short(t))
+		}
+		switch {
+		case i == pos:
+		case i < pos:
+			rewinds++
+		default:
+			for j := pos; j < i; j++ {
+				if seen[j] {
+					continue
+				}
+				if !inB[j] && seenBefore(R[k:], E[j].Tx) {
+					return "violation:reorder", fmt.Sprintf("after the crash, %s was released before the earlier %s (height %d pos %d), which is not in the response of the interrupted call and came only later", short(t), short(E[j].Tx), E[j].H, E[j].Pos)
+				}
+				if !inB[j] {
+					return "violation:loss", fmt.Sprintf("after the crash, %s (height %d pos %d) was passed over: it is neither in the response of the interrupted call %s nor was it released before %s", short(E[j].Tx), E[j].H, E[j].Pos, shortList(B), short(t))
+				}
+				skippedB++
+			}
+		}
+		seen[i] = true
+		pos = i + 1
+	}
+	for j := range E {
+		if !seen[j] && !inB[j] {
+			return "violation:loss", fmt.Sprintf("after the crash and the fault-free drain, %s (height %d pos %d) was never released and is not in the response of the interrupted call %s", short(E[j].Tx), E[j].H, E[j].Pos, shortList(B))
+		}
+	}
+	switch {
+	case rewinds > 0:
+		return "transactions-released-again", fmt.Sprintf("%d jump(s) back in DA order after the restart", rewinds)
+	case skippedB > 0 && len(R) > 0 && idx[R[0]] == 0:
+		return "response-partly-released-again", ""
+	case skippedB > 0:
+		return "undelivered-response-not-released-again", fmt.Sprintf("%d tx of the interrupted call's response were not released again", skippedB)
+	case len(B) > 0:
+		return "undelivered-response-released-again", ""
+	}
+	return "nothing-in-flight", ""
+}
+
+func seenBefore(R []string, t string) bool {
+	for _, x := range R {
+		if x == t {
+			return true
+		}
+	}
+	return false
+}
+
+func nonEmpty(ts []string) []string {
+	out := ts[:0:0]
+	for _, t := range ts {
+		if len(t) > 0 {
+			out = append(out, t)
+		}
+	}
+	return out
+}
+
+func nonEmptyAt(ts []TxAt) []TxAt {
+	out := ts[:0:0]
+	for _, t := range ts {
+		if len(t.Tx) > 0 {
+			out = append(out, t)
+		}
+	}
+	return out
 }
 
 func minU(a, b uint64) uint64 {
@@ -601,11 +998,17 @@ func describe(c Case) string {
 			for _, e := range st.Errs {
 				fmt.Fprintf(&sb, " %s@%d", e.Kind, e.H)
 			}
+			if st.CrashAfter > 0 {
+				fmt.Fprintf(&sb, ", datastore dies after %d more write(s)", st.CrashAfter-1)
+			}
 			sb.WriteString(")")
 		case "grow":
 			sb.WriteString("grow{" + hs(st.Grow) + "}")
 		default:
 			sb.WriteString(st.Kind)
+			if st.Cursor != "" {
+				sb.WriteString("(caller's LastBatchData: " + st.Cursor + ")")
+			}
 		}
 	}
 	sb.WriteString("]")
@@ -659,6 +1062,18 @@ func (rp *reporter) handle(c Case, v *Verdict) {
 		txs += int64(len(cr.Released))
 	}
 	r.Count("txs_released", txs)
+	if v.CrashKind != "" {
+		r.Count("after_crash_inside_call:"+v.CrashKind, 1)
+	}
+	r.Count("non_text_txs_released_in_order", int64(v.binRel))
+	r.Count("zero_length_blobs_released", int64(v.zeroRel))
+	for _, cr := range v.Calls {
+		for _, t := range cr.Released {
+			if len(t) >= 256<<10 {
+				r.Count("large_txs_released", 1)
+			}
+		}
+	}
 	nontrivial := v.nRelCall >= 2 && (v.nRestart+v.nErr+v.nGrow+v.partial > 0)
 	r.Eval(fmt.Sprintf("%s/s%d/d%d/%s", c.Region, c.Start, c.Drift, v.kinds.String()), nontrivial,
 		map[string]any{"region": c.Region, "case": describe(c), "released": released(v), "verdict": v.Kind})
@@ -734,7 +1149,8 @@ func Run(r *vk.Run) {
 	world.Silence()
 	r.Rule = "seeded cases: DA contents of 1-8 initial heights x 0-6 txs of 1-60 bytes (empty heights included), start height 0|1|3, max height drift 0|1|2|5, 4-17 steps {GetNextBatch(limit, LastBatchData passed back as the block manager does) with optional scripted retrieval errors | restart (new Sequencer on the same datastore) | DA growth above the head}, then a drain phase with a limit above everything; " +
 		"non-trivial = >= 2 calls released txs and >= 1 restart, retrieval error, growth step or batch ending inside a height; distinct by (region, start, drift, step-kind sequence: c call covering its window | p call with limit below its window content | e call with errors | R restart | g growth). " +
-		"Regions: clean = no call's scan window reaches the call's limit and no height passed while unproduced is filled later; skips-unproduced = the latter happens (limits still above the windows); partial-fit / oversize = some window reaches the limit (limits >= every tx / limits below single txs)."
+		"Regions: clean = no call's scan window reaches the call's limit and no height passed while unproduced is filled later; skips-unproduced = the latter happens (limits still above the windows); partial-fit / oversize = some window reaches the limit (limits >= every tx / limits below single txs); free = no regard to the window model: any limit (below a tx, exactly a tx, none = default), retrieval errors (7 listing / 11 chunk identities) and DA growth at any time incl. after a carry-over, now and then a height with 101-230 txs (several id chunks) or one 256 KiB tx. " +
+		"In every region half of the cases mix in non-text transactions (zero bytes, 0xFF runs, random bytes, invalid UTF-8, JSON metacharacters, U+FFFD, zero-length blobs), and after a restart the caller passes back the LastBatchData it kept, none (lost) or the one before (stale); some calls request no size (MaxBytes=0). Zero-length blobs are not judged (may be released or left out); a call without a requested size is not judged for size."
 	r.Assume("DA layer is the DADouble: heights at or below the head are immutable, growth only above the head; retrieval errors are transient (listing error or chunk error), never a lie about contents")
 	r.Assume("datastore is the in-memory MemDS double; a restart is a new Sequencer over the same image")
 	r.Assume("bounded progress: with the DA frozen, no faults and a limit above everything, (heights + txs + 5) calls must release everything up to the head")
@@ -759,10 +1175,20 @@ func Run(r *vk.Run) {
 	part := mk("partial-fit", nPart, nClean+nSkip)
 	over := mk("oversize", nOver, nClean+nSkip+nPart)
 
+	nFree := n / 4
+	free := make([]Case, nFree)
+	for i := range free {
+		free[i] = g.genFree(n + i)
+	}
+
 	r.Require("da-order", int64(nClean*3))
 	r.Require("size-bound", int64(nClean*2))
 	r.Require("restart-continuity", int64(nClean/2))
 	r.Require("completeness", int64(nClean))
+	r.Require("restart-continuity-cursor-nil", int64(n/40))
+	r.Require("restart-continuity-cursor-stale", int64(n/40))
+	r.Require("restart-with-carry-over", int64(n/40))
+	r.Require("default-limit-call", int64(n/40))
 
 	// 1. clean region: every failure is a violation
 	pool(len(clean), func(i int) { rp.handle(clean[i], Judge(clean[i])) })
@@ -773,4 +1199,13 @@ func Run(r *vk.Run) {
 	pool(len(skip), func(i int) { rp.handle(skip[i], Judge(skip[i])) })
 	pool(len(part), func(i int) { rp.handle(part[i], Judge(part[i])) })
 	pool(len(over), func(i int) { rp.handle(over[i], Judge(over[i])) })
+	// 3. free region: judged by the stream oracle alone, every failure is a violation
+	pool(len(free), func(i int) { rp.handle(free[i], Judge(free[i])) })
+	// 4. crash experiment: the datastore dies inside a call. Outside the property's quantifier ("restarts between
+	// any two calls"): repeated or undelivered transactions of that call are counted, only lasting damage is judged
+	crash := make([]Case, n/8)
+	for i := range crash {
+		crash[i] = g.genCrash(n + nFree + i)
+	}
+	pool(len(crash), func(i int) { rp.handle(crash[i], Judge(crash[i])) })
 }
